@@ -994,7 +994,11 @@ def line_mismatch(blocks, exp, verbose, opts, via_writer=False):
             want = [("%s (%s)" % (f, t), str(v)) for f, t, v in fields]
         else:
             want = [(f, str(v)) for f, t, v in fields]
-        if kv[: len(want)] != want:
+        # reserved fields (_source, _classification, _generated, _version) are printed too - after the record's own
+        # fields, or, for a grouped record, after the fields of its first member; they are compared elsewhere
+        # (JSON and stream modes), here only the record's own fields count, all of them and in order
+        own = [x for x in kv if not x[0].startswith("_")]
+        if own != want:
             return "block %d fields %s, expected %s" % (i, short(kv, 160), short(want, 160))
     return None
 
